@@ -22,6 +22,10 @@ class Bodies:
         r = 0.0 if self.plain else rng.random()
         if r < 0.15 and self.last is not None:
             return self.last
+        if 0.93 < r:
+            # a Gatehouse wrapper line can carry a tag block (and be a member of a group) like any sentence
+            self.last = gen.gatehouse(d=rng.choice([1, 28]), mo=rng.choice([1, 12]))
+            return self.last
         if r < 0.45:
             if not self.pending:
                 n = rng.randint(2, 3)
